@@ -2,7 +2,7 @@
    Proved: the arithmetic under every inline position, and that the oracle pos_ok means what the property says.
    That every token of every document satisfies pos_ok is established by running the extracted oracle (see evidence). *)
 From Coq Require Import List ZArith NArith Bool Arith.
-Require Import PV.Base.Str PV.Model.Pos PV.Proofs.PosProofs.
+Require Import PV.Base.Str PV.Model.Pos PV.Proofs.PosProofs PV.Model.Tabs PV.Proofs.TabsProofs.
 Import ListNotations.
 Local Open Scope Z_scope.
 
@@ -36,4 +36,37 @@ Example c05_example :
   pos_ok lines (OChars [35]%N) 1 1 = true /\ pos_ok lines (OChars [45;43;42]%N) 3 3 = true /\ pos_ok lines (OChars [42;95]%N) 3 5 = true /\
   pos_ok lines (OChars [42;95]%N) 3 4 = false /\ pos_ok lines OAny 4 1 = false /\
   apply_deltas (3, 5) (calc_deltas [97;10;98;99]%N) = (4, 3) /\ read_pos (3, 5) [97;10;98;99]%N = (4, 3).
+Proof. repeat split; vm_compute; reflexivity. Qed.
+
+(* ---- tabs (general/tab_helper.py): a position in a line is a column only after the tabs in front of it have been given
+   their width ---- *)
+(* the loop of TabHelper.detabify_string never runs out of fuel and computes the character-by-character expansion, for every
+   text and every starting column *)
+Theorem detab_loop_is_expand : forall s delta, detab_impl s delta = Some (expand delta s).
+Proof. exact detab_impl_spec_l. Qed.
+Print Assumptions detab_loop_is_expand.
+
+(* the expanded text has no tab, is as long as calculate_length says, and a text without tabs is left as it is *)
+Theorem detab_exact : forall s col,
+  has_tab (expand col s) = false /\ N.of_nat (length (expand col s)) = calc_length s col /\ expand col (expand col s) = expand col s.
+Proof. intros s col. split; [apply expand_has_no_tab_l | split; [apply expand_length_l | apply expand_idempotent_l]]. Qed.
+Print Assumptions detab_exact.
+
+(* expansion composes along the line: the second part of a text is expanded from the column at which the first part ends -
+   so the rest of a line may be expanded on its own once the column of its first character is known (additional_start_delta) *)
+Theorem detab_composes : forall a b col, expand col (a ++ b) = expand col a ++ expand (adv col a) b.
+Proof. intros a b col. apply expand_app_l. Qed.
+Print Assumptions detab_composes.
+
+(* a tab ends at the next multiple of four and is one to four columns wide *)
+Theorem tab_stop : forall col, (adv col [c_tab] mod 4 = 0 /\ col < adv col [c_tab] <= col + 4)%N.
+Proof. exact adv_stop_l. Qed.
+Print Assumptions tab_stop.
+
+Example detab_examples :
+  (* "a<tab>b" from column 0 and from column 3; spaces in front of the tab belong to the run *)
+  expand 0 [97; 9; 98]%N = [97; 32; 32; 32; 98]%N /\
+  expand 3 [97; 9; 98]%N = [97; 32; 32; 32; 32; 98]%N /\
+  detab_impl [97; 32; 32; 9; 9; 98; 9]%N 2 = Some (expand 2 [97; 32; 32; 9; 9; 98; 9]%N) /\
+  calc_length [32; 9]%N 2 = 2%N.
 Proof. repeat split; vm_compute; reflexivity. Qed.
